@@ -1,5 +1,6 @@
 #include "ccl/lang/Reference.h"
 
+#include <algorithm>
 #include <limits>
 
 // TODO: Use format library for GCC when available (GCC13+)
@@ -33,6 +34,21 @@ namespace {
   }
 }
 
+//! Name of an entity is a single word: a letter followed by letters, digits or underscores
+[[nodiscard]] bool IsEntityName(const std::string_view token) noexcept {
+  if (empty(token) || isalpha(static_cast<unsigned char>(token.at(0))) == 0) {
+    return false;
+  }
+  return std::all_of(begin(token), end(token), [](const char symbol) noexcept {
+    return symbol == '_' || isalnum(static_cast<unsigned char>(symbol)) != 0;
+  });
+}
+
+//! Names and grammemes have no brackets: a marker that encloses another marker is plain text
+[[nodiscard]] bool HasBrackets(const std::string_view token) noexcept {
+  return token.find_first_of("{}") != std::string_view::npos;
+}
+
 [[nodiscard]] ReferenceType DeduceRefType(const std::vector<std::string_view>& tokens) noexcept {
   static constexpr auto maxOffsetLength = 6U; // sign and digits of int16_t offset
   if (size(tokens) < EntityRef::fieldCount || size(tokens) > EntityRef::fieldCount + 2) {
@@ -43,7 +59,11 @@ namespace {
     return ReferenceType::invalid;
   }
   const auto& firstSymbol = firstToken.at(0);
-  if (isalpha(firstSymbol)) {
+  if (isalpha(static_cast<unsigned char>(firstSymbol)) != 0) {
+    // Note: text that is not a name (blanks, nested markers) does not make a reference and should not hide references inside it
+    if (!IsEntityName(firstToken) || std::any_of(begin(tokens), end(tokens), HasBrackets)) {
+      return ReferenceType::invalid;
+    }
     return ReferenceType::entity;
   } else if (IsInteger(firstToken) && size(firstToken) <= maxOffsetLength && size(tokens) == CollaborationRef::fieldCount) {
     return ReferenceType::collaboration;
